@@ -20,6 +20,8 @@ def main() -> int:
     if a.what == "selftest":
         from .selftest import selftest
         return selftest()
+    import logging
+    logging.getLogger("aioswitcher").addHandler(logging.NullHandler())   # keep the library's log lines off stderr
     from . import props
     from .core import run_check
     pid = a.what.upper()
